@@ -1,6 +1,8 @@
 SPECIFICATION Spec
 CONSTANTS Devs = {}
           Cases <- MQuick
-          GF = 4
-          FPKeys = {}
+          GF = 2
+          FPKeys = {1, 2, 3, 4, 5}
 INVARIANTS StackIsRecursive EmitSafe EmitOnce NoFalseNegative ChainShape CountRight
+PROPERTY ChainMonotone
+CONSTRAINT BloomBound
